@@ -42,6 +42,7 @@ inductive Exc where
   | lexer (code : Str) (line col : Nat)
   | parser (code : Str) (line col : Nat)
   | py (cls : Str)
+  | unsupported (what : Str)   -- the model does not cover this path (never compared)
   | fuel            -- model artefact: never produced when fuel ≥ input length + 1 (theorem)
   deriving DecidableEq, Repr, Inhabited
 
